@@ -309,7 +309,9 @@ class Exec:
                 st, model, secs = 'discharged', None, 0.0
             else:
                 t = time.time()
-                r, s = self.prove(goal)
+                # the obligation of a recorded finding with when=True: only 'proved' vs 'not proved' matters (a proof means the
+                # finding is gone); the long search for a model of the quantified hypotheses is not needed
+                r, s = self.prove(goal, budget=(self.timeout_ms // 4 if self.recorded_always(name) else None))
                 secs = time.time() - t
                 self.solver_secs += secs
                 self.nqueries += 1
@@ -325,17 +327,18 @@ class Exec:
                     st = 'discharged'
                 elif r == z3.sat:
                     st = 'failed'
-                    model = self.model_of(s.model())
-                    small = self.minimise(s)
-                    if small is not None:
-                        model = small
-                    for kf in self.known:
-                        if kf['obligation'] == name:
-                            phi = S.spec_eval(kf['when'], self.entry_env, self.spec_lets)
-                            s.add(z3.Not(phi))
-                            if s.check() == z3.unsat:
-                                st = 'known'
-                            break
+                    zm = s.model()
+                    model = self.model_of(zm)
+                    kst = self.match_known(name, s, zm)
+                    if kst is None or kst[0] != 'known':
+                        # (a recorded finding needs no small counterexample: its replay is the committed demonstration)
+                        small = self.minimise(s)
+                        if small is not None:
+                            model = small
+                    if kst is not None:
+                        st, model2, note = kst
+                        model = model2 or model
+                        detail = (detail + ' ' + note).strip()
                 else:
                     st = 'unknown'
                     detail = (detail + ' ' + s.reason_unknown()).strip()
@@ -352,6 +355,10 @@ class Exec:
                             detail += ' candidate-model-without-quantified-hypotheses'
                     except Exception:
                         pass
+                    kst = self.match_known(name, None, model)
+                    if kst is not None:
+                        st, _m, note = kst
+                        detail = (detail + ' ' + note).strip()
             if props is None:
                 props = self.contract.serves if self.contract else ()
             ob = Obligation(name, kind, label, tuple(props), st, model, secs, line, self.fname, detail)
@@ -368,13 +375,57 @@ class Exec:
         finally:
             self._deriving = False
 
-    def prove(self, goal):
+    def match_known(self, name, s, zm):
+        """Is the failure of obligation `name` the one recorded in known_findings.txt?  The record says: the obligation does
+        not hold for the inputs satisfying `when`.  Returns None (no record for this obligation) or (status, model, note).
+        s: the solver holding hypotheses and negated goal after a 'sat' answer (None when the solver gave no answer);
+        zm: the z3 model of that answer.
+        The verdict must not depend on how long the solver takes: with when=True every failing input of the obligation is
+        the recorded one, so neither a counterexample nor an undecided attempt can be anything else -- no solver call."""
+        for kf in self.known:
+            if kf['obligation'] != name:
+                continue
+            phi = S.spec_eval(kf['when'], self.entry_env, self.spec_lets)
+            if isinstance(phi, bool):
+                phi = z3.BoolVal(phi)
+            nphi = z3.simplify(z3.Not(phi))
+            if z3.is_false(nphi):
+                return ('known', None, 'recorded finding (when=True covers every failing input of this obligation)')
+            if s is None:
+                # undecided attempt, record restricted to some inputs: nothing distinguishes this from the record unless a
+                # candidate outside `when` exists; that is decided by the ordinary path (native replay of the candidate)
+                return None
+            inside = zm is not None and z3.is_true(zm.eval(phi, model_completion=True))
+            s.push()
+            s.add(nphi)
+            r2 = s.check()
+            if r2 == z3.unsat:
+                s.pop()
+                return ('known', None, 'recorded finding (no counterexample outside the recorded predicate)')
+            if r2 == z3.sat:
+                m2 = self.model_of(s.model())
+                s.pop()
+                return ('failed', m2, 'counterexample outside the predicate of the recorded finding')
+            s.pop()
+            if inside:
+                return ('known', None, 'recorded finding (the counterexample found satisfies the recorded predicate; '
+                                       'the search for one outside it did not finish)')
+            return ('failed', None, 'counterexample does not satisfy the predicate of the recorded finding')
+        return None
+
+    def recorded_always(self, name):
+        for kf in self.known:
+            if kf['obligation'] == name and (kf['when'] or '').strip() == 'True':
+                return True
+        return False
+
+    def prove(self, goal, budget=None):
         """portfolio: z3's outcome on these VCs depends on how the problem is presented (batch vs. incremental
         assertion, seed, preprocessing); every variant is the same query, any 'unsat' is a proof, any 'sat' a
         counterexample. Returns (result, solver)."""
         neg = z3.Not(goal)
         qf = [h for h in self.hyps if not _has_quant(h)]
-        T = self.timeout_ms
+        T = budget or self.timeout_ms
         plans = []
         if not _has_quant(goal):
             plans.append(('qf-batch', qf, 'batch', 0, min(3000, T)))
